@@ -488,7 +488,7 @@ def enum_specs(draw, prof=None):
                 seen.add(nm)
             # pad one name so that the sum of all name lengths lands on / next to a power of two
             # (string tables addressed by narrow offsets)
-            if chance(draw, 0.1):
+            if chance(draw, prof.get("pad_names", 0.1)):
                 total = sum(len((v.get("rename") if v.get("rename") is not None else v["ident"]).encode("utf-8")) for v in variants)
                 target = draw(st.sampled_from([255, 256, 257, 256, 511, 512, 65535, 65536, 65537]))
                 if target > 1000 and not chance(draw, 0.25):
